@@ -2,7 +2,7 @@
 From Coq Require Import List ZArith Bool.
 From LJT Require Import model.Huff gen.GenParams model.CParams proofs.CParamsHoare proofs.CParamsTj
   proofs.CParamsScript proofs.CParamsChain proofs.CParamsSetup proofs.CParamsBlock proofs.CParamsMaster
-  proofs.CParamsPasses proofs.CParamsSimd proofs.CParamsExamples lib.Sweep.
+  proofs.CParamsPasses proofs.CParamsSimd proofs.CParamsExamples lib.Sweep model.CProgScript proofs.CProgScriptProofs.
 Import ListNotations.
 Local Open Scope Z_scope.
 
@@ -129,6 +129,24 @@ Theorem C17_simd_precheck_sound : forall prec dctbl actbl st last_dc coefs, 0 <=
   simd_range_ok prec last_dc coefs = false.
 Proof. exact simd_precheck_sound_lemma. Qed.
 Print Assumptions C17_simd_precheck_sound.
+
+(* jpeg_simple_progression on ONE compression object, for EVERY sequence of calls (any scan counts): the
+   script workspace in the permanent pool always has at least as many slots as the call writes
+   (re-allocation rule read from jcparam.c); the slot count announced equals the number of scans the
+   fill_* calls write for EVERY component count; and for 1..MAX_COMPONENTS components (T1-finite, bound
+   stated) the script is accepted by validate_script at 8 and 12 bits *)
+Theorem C17_script_workspace_safe : forall calls w, ws_inv w -> sp_run w calls = true.
+Proof. exact script_workspace_safe_lemma. Qed.
+Print Assumptions C17_script_workspace_safe.
+Theorem C17_simple_progression_length : forall ncomps ycc, 0 <= ncomps ->
+  Z.of_nat (length (simple_progression ncomps ycc)) = simple_nscans ncomps ycc.
+Proof. exact simple_progression_length_lemma. Qed.
+Print Assumptions C17_simple_progression_length.
+Theorem C17_simple_progression_accepted : forall n ycc, 1 <= n <= g_MAX_COMPONENTS ->
+  snd (validate_script n 8 (simple_progression n ycc)) = inr Progressive /\
+  snd (validate_script n 12 (simple_progression n ycc)) = inr Progressive.
+Proof. exact simple_progression_accepted_lemma. Qed.
+Print Assumptions C17_simple_progression_accepted.
 
 (* (6) stream completeness, as far as the model carries it: the pass loop of the master terminates for every
    scan count / optimisation setting / set of DC refinement scans, writes SOI first, every scan's data exactly
